@@ -102,3 +102,117 @@ __CPROVER_ensures (V_PREC (x) == V_NEWPREC (bits) && V_WFF_AT (x, gk) && V_EXP (
   free (F._mp_d);
 }''', cbmc_flags=['--memory-leak-check'], timeout=900,
     selftest=[('__gmpf_set_prec', r'old_prec\+1', 'old_prec'), ('__gmpf_set_prec', r'xp \+ size - new_prec_plus1', 'xp')]))
+
+# ------------------------------------------------------------------ mpf_trunc: the integer part, truncated toward zero - top min(un, exp, prec+1) limbs
+_tr = dict(name='mpf_trunc', props=['C13', 'C04', 'C05', 'C15'], source='mpf/trunc.c', contracts=CT,
+    contract_text='V_MPF2 (__gmpf_trunc);\n', enforce=['__gmpf_trunc'],
+    functions={'__gmpf_trunc': dict(loops={0: copy_loop('gk', 'incr')})},
+    harness='void h_mpf_trunc (void) {\n%s%s%s' % (mpf_obj('R'), mpf_obj('U'), ALIASF) + '''  gk = nondet_long (); gj = nondet_long (); gh = nondet_long ();
+  __CPROVER_assume (V_GHOSTS_OK && V_WFF (r) && V_WFF (u));
+  long su = V_SIZ (u), un = V_ABS (su), pr = V_PREC (r) + 1, eu = V_EXP (u);
+  long rn = (su == 0 || eu <= 0) ? 0 : (un < eu ? un : eu); if (rn > pr) rn = pr;       /* integer-part limbs kept: min(un, exp, prec+1) */
+  mp_limb_t Uk = gk < rn ? V_PTR (u)[gk + (un - rn)] : 0;
+  __gmpf_trunc (r, u);
+  __CPROVER_assert ((long) V_SIZ (r) == (su >= 0 ? rn : -rn), "[C13] trunc: min(|size|, exp, prec+1) limbs of the integer part, sign kept; a pure fraction gives 0");
+  __CPROVER_assert (V_EXP (r) == (rn ? eu : 0), "[C13] exponent unchanged (0 for a zero result)");
+  __CPROVER_assert (gk < rn ==> V_PTR (r)[gk] == Uk, "[C13][C05] limb gk of r is limb gk of the TOP rn limbs of u: every limb below the radix point is dropped, none above");
+  __CPROVER_assert (u != r ==> ((long) V_SIZ (u) == su && V_EXP (u) == eu && (gk < rn ==> V_PTR (u)[gk + (un - rn)] == Uk)), "[C05] source unchanged");
+}''', timeout=600,
+    selftest=[('__gmpf_trunc', r'asize = \(\(asize\) < \(exp\) \? \(asize\) : \(exp\)\);', ';'), ('__gmpf_trunc', r'up -= asize;', 'up -= asize - 1;')])
+UNITS.extend(split_alias(_tr, ALIASF, AF))
+
+# ------------------------------------------------------------------ mpf_swap, mpf_cmp_si
+UNITS.append(dict(name='mpf_swap', props=['C13', 'C04', 'C05', 'C15'], source='mpf/swap.c', contracts=CT,
+    contract_text='''void __gmpf_swap (mpf_ptr u, mpf_ptr v)
+__CPROVER_requires (V_WFF (u) && V_WFF (v))
+__CPROVER_assigns (*u, *v)
+__CPROVER_ensures (V_PTR (u) == __CPROVER_old (V_PTR (v)) && V_SIZ (u) == __CPROVER_old (V_SIZ (v)) && V_EXP (u) == __CPROVER_old (V_EXP (v)) && V_PREC (u) == __CPROVER_old (V_PREC (v)))
+__CPROVER_ensures (V_PTR (v) == __CPROVER_old (V_PTR (u)) && V_SIZ (v) == __CPROVER_old (V_SIZ (u)) && V_EXP (v) == __CPROVER_old (V_EXP (u)) && V_PREC (v) == __CPROVER_old (V_PREC (u)))
+__CPROVER_ensures (V_WFF (u) && V_WFF (v));
+''', enforce=['__gmpf_swap'],
+    harness='void h_mpf_swap (void) {\n%s%s  mpf_ptr u = &U, v = &V; if (nondet_bool ()) v = u;\n  __gmpf_swap (u, v);\n}' % (mpf_obj('U'), mpf_obj('V')),
+    selftest=[('__gmpf_swap', r'u->_mp_prec = vprec;', 'u->_mp_prec = uprec;'), ('__gmpf_swap', r'v->_mp_exp = uexp;', 'v->_mp_exp = vexp;')]))
+UNITS.append(f1('__gmpf_cmp_si', 'cmp_si', 'mpir_si v;', ', v', [(r'if \(uexp > 1\)', 'if (uexp > 2)'), (r'usize >= 0 \? 1 : -1;\s*\}', 'usize > 0 ? 1 : -1; }'), (r'return -\(vval != 0\);', 'return (vval != 0);')],
+                dict(contract_text='''#define V_ABSL(v) ((V_limb) ((v) < 0 ? -(V_limb) (v) : (V_limb) (v)))
+/* mpf_cmp_si: sign of u - v.  Same structure as mpf_cmp_ui on |u| and |v| once the signs agree */
+int __gmpf_cmp_si (mpf_srcptr u, mpir_si vval)
+__CPROVER_requires (V_WFF (u) && 0 <= gj && gj <= V_NMAX)
+__CPROVER_assigns (g_hd)
+__CPROVER_ensures (((V_SIZ (u) < 0) != (vval < 0)) ==> V_SGN3 (__CPROVER_return_value) == (V_SIZ (u) >= 0 ? 1 : -1))
+__CPROVER_ensures (((V_SIZ (u) < 0) == (vval < 0) && V_SIZ (u) == 0) ==> V_SGN3 (__CPROVER_return_value) == -(vval != 0))
+__CPROVER_ensures (((V_SIZ (u) < 0) == (vval < 0) && V_SIZ (u) != 0 && vval == 0) ==> V_SGN3 (__CPROVER_return_value) == 1)
+__CPROVER_ensures (((V_SIZ (u) < 0) == (vval < 0) && V_SIZ (u) != 0 && vval != 0 && V_EXP (u) != 1) ==> V_SGN3 (__CPROVER_return_value) == (V_EXP (u) > 1 ? V_USGN (u) : -V_USGN (u)))
+__CPROVER_ensures (((V_SIZ (u) < 0) == (vval < 0) && V_SIZ (u) != 0 && vval != 0 && V_EXP (u) == 1 && V_FTOP (u) != V_ABSL (vval)) ==> V_SGN3 (__CPROVER_return_value) == (V_FTOP (u) > V_ABSL (vval) ? V_USGN (u) : -V_USGN (u)))
+/* integer parts equal: u is larger in magnitude exactly when it has a non-zero limb below the top one (g_hd: the lowest non-zero limb) */
+__CPROVER_ensures (((V_SIZ (u) < 0) == (vval < 0) && V_SIZ (u) != 0 && vval != 0 && V_EXP (u) == 1 && V_FTOP (u) == V_ABSL (vval)) ==>
+   (0 <= g_hd && g_hd < V_ABSIZ (u) && V_PTR (u)[g_hd] != 0 && (gj < g_hd ==> V_PTR (u)[gj] == 0) && V_SGN3 (__CPROVER_return_value) == (g_hd < V_ABSIZ (u) - 1 ? V_USGN (u) : 0)));
+''', drop_checks=['--signed-overflow-check'], cbmc_flags=['--no-signed-overflow-check'], assumptions=['mpf_cmp_si: ABS(LONG_MIN) wraps (gcc semantics)'],
+                     functions={'__gmpf_cmp_si': dict(
+                    inserts=[(r'up = u->_mp_d;', r'\g<0> long V_n = usize;')],
+                    loops={0: dict(scalars=['usize'], havoc_targets=['up'],
+                                   havoc='{ long V_d = nondet_long (); __CPROVER_assume (0 <= V_d && V_d < V_n); up = u->_mp_d + V_d; usize = V_n - 1 - V_d; }',
+                                   inv='(up >= u->_mp_d && __CPROVER_same_object (up, u->_mp_d) && usize == V_n - 1 - (up - u->_mp_d) && 0 <= usize && usize <= V_n - 1 && u->_mp_d[V_n - 1] != 0 && V_n == (u->_mp_size < 0 ? -(long) u->_mp_size : (long) u->_mp_size) && (gj < (up - u->_mp_d) ==> u->_mp_d[gj] == 0))',
+                                   dec='usize + 1', after='g_hd = up - u->_mp_d;')})})))
+
+# ------------------------------------------------------------------ mpf_ceil / mpf_floor (operands distinct): integer part, incremented in magnitude exactly when the
+# rounding direction matches the sign and some dropped limb is non-zero
+CF_CONTRACT = '''int g_cf_inc; mp_limb_t g_cf_hv;
+static void __gmpf_ceil_or_floor (mpf_ptr r, mpf_srcptr u, int dir)
+__CPROVER_requires (V_WFF (r) && V_WFF (u) && r != u && !__CPROVER_same_object (V_PTR (r), V_PTR (u)) && (dir == 1 || dir == -1) && V_EXP (u) < (1L << 62) && V_GHOSTS_OK)
+__CPROVER_assigns (r->_mp_size, r->_mp_exp, __CPROVER_object_whole (V_PTR (r)), g_ci, g_co, g2_ci, g2_co, g_hd, g_cf_inc, g_cf_hv)
+__CPROVER_ensures (V_WFF_AT (r, gk) && V_PTR (r) == __CPROVER_old (V_PTR (r)) && V_PREC (r) == __CPROVER_old (V_PREC (r)));
+'''
+_cf = (dict(name='mpf_ceilfloor', props=['C13', 'C04', 'C15'], source='mpf/ceilfloor.c', contracts=CT, contract_text=CF_CONTRACT,
+    enforce=['__gmpf_ceil_or_floor'], replace=['__gmpn_add_1'],
+    functions={'__gmpf_ceil_or_floor': dict(
+        inserts=[(r'if \(__gmpn_add_1 \(rp, up, asize, \(\(mp_limb_t\) 1L\)\)\)', r'g_cf_inc = 1; g_hd = p - u->_mp_d; g_cf_hv = *p; \g<0>')],
+        loops={0: dict(scalars=['asize', 'g_cf_hv', 'g_cf_inc', 'g_hd'], snap='long V_as = asize;', havoc_targets=['p'], havoc='{ long V_d = nondet_long (); __CPROVER_assume (0 <= V_d && V_d < (up - u->_mp_d)); p = u->_mp_d + V_d; }',
+                       inv='(asize == V_as && p >= u->_mp_d && p <= up && __CPROVER_same_object (p, u->_mp_d) && __CPROVER_same_object (up, u->_mp_d) && g_cf_inc == 0 && ((0 <= gj && gj < (p - u->_mp_d)) ==> u->_mp_d[gj] == 0))',
+                       dec='(up - p)'),
+               1: copy_loop('gk', 'incr')})},
+    assumptions=['r == u is NOT covered: in place mpf_ceil/mpf_floor hand mpn_add_1 a partially overlapping pair (rp below up), which the manual\'s "same or separate" rule - the contract mpn_add_1 is proved under - does not permit'],
+    harness='void h_mpf_ceilfloor (void) {\n%s%s  mpf_ptr r = &R; mpf_srcptr u = &U;\n' % (mpf_obj('R'), mpf_obj('U')) + '''  gk = nondet_long (); gh = nondet_long (); gj = nondet_long ();
+  __CPROVER_assume (V_GHOSTS_OK && V_WFF (r) && V_WFF (u) && V_EXP (u) < (1L << 62));
+  int dir = DIRSEL;
+  long su = V_SIZ (u), un = V_ABS (su), pr = V_PREC (r) + 1, eu = V_EXP (u);
+  long k = un < eu ? un : eu; if (k > pr) k = pr;                      /* kept integer-part limbs when exp > 0 */
+  _Bool match = ((su < 0) == (dir < 0));                                 /* rounding away from zero for this sign */
+  mp_limb_t Uk = (eu > 0 && gk < k) ? V_PTR (u)[gk + (un - k)] : 0, Ugj = (eu > 0 && gj < un - k) ? V_PTR (u)[gj] : 0;
+  g_cf_inc = 0;
+  if (dir == 1) __gmpf_ceil (r, u); else __gmpf_floor (r, u);
+  long sr = V_SIZ (r), rn = V_ABS (sr);
+  if (su == 0)
+    __CPROVER_assert (sr == 0, "[C13] ceil/floor of 0 is 0");
+  else if (eu <= 0)
+    __CPROVER_assert (match ? (sr == dir && V_PTR (r)[0] == 1 && V_EXP (r) == 1) : sr == 0, "[C13] a pure fraction rounds to 0, or to +-1 in the rounding direction");
+  else if (g_cf_inc)
+    {
+      __CPROVER_assert (match && 0 <= g_hd && g_hd < un - k && g_cf_hv != 0, "[C13] the magnitude is incremented only in the rounding direction and because a dropped limb is non-zero");
+      if (rn == k && V_EXP (r) == eu)
+        {
+          __CPROVER_assert ((sr < 0) == (su < 0), "[C13] sign kept");
+          __CPROVER_assert (gk < k ==> (g_ci <= 1 && g_co <= 1 && V_ADDREL (V_PTR (r)[gk], Uk, (gk == 0 ? 1 : 0), g_ci, g_co)), "[C13] |r| = (integer part kept) + 1: carry chain at limb gk");
+          __CPROVER_assert ((gk == 0 && gk < k) ==> g_ci == 0, "[C13] no carry into limb 0");
+          __CPROVER_assert (gk == k - 1 ==> g_co == 0, "[C13] no carry out of the top limb in this branch");
+        }
+      else
+        {
+          __CPROVER_assert (rn == 1 && V_PTR (r)[0] == 1 && V_EXP (r) == eu + 1 && (sr < 0) == (su < 0), "[C13] all-ones integer part: the increment gives B^exp, stored as 1 with exponent + 1");
+          __CPROVER_assert (gk == k - 1 ==> g_co == 1, "[C13] ... exactly when the carry leaves the top limb");
+        }
+    }
+  else
+    {
+      __CPROVER_assert (sr == (su >= 0 ? k : -k) && V_EXP (r) == eu, "[C13] no increment: min(|size|, exp, prec+1) limbs of the integer part, sign and exponent kept");
+      __CPROVER_assert (gk < k ==> V_PTR (r)[gk] == Uk, "[C13] limb gk of r is limb gk of the TOP k limbs of u");
+      __CPROVER_assert ((match && gj < un - k) ==> Ugj == 0, "[C13] in the rounding direction the increment is skipped only when EVERY dropped limb is zero");
+    }
+  __CPROVER_assert ((long) V_SIZ (u) == su && V_EXP (u) == eu && ((eu > 0 && gk < k) ==> V_PTR (u)[gk + (un - k)] == Uk), "[C05] source unchanged");
+}''', timeout=900,
+    selftest=[('__gmpf_ceil_or_floor', r'if \(\(size \^ dir\) >= 0\)', 'if ((size ^ dir) < 0)'), ('__gmpf_ceil_or_floor', r'\(\(r\)->_mp_exp\)\+\+;', ';'),
+              ('__gmpf_ceil_or_floor', r'for \(p = \(\(u\)->_mp_d\); p != up; p\+\+\)', 'for (p = ((u)->_mp_d) + 1; p != up; p++)')]))
+_cf['assumptions'] = _cf['assumptions'] + ['exponent below 2^62 (EXP(r)++ on LONG_MAX would overflow)']
+for _n, _d in (('mpf_ceil', '1'), ('mpf_floor', '-1')):
+    _v = dict(_cf); _v['name'] = _n; _v['harness'] = _cf['harness'].replace('DIRSEL', _d).replace('h_mpf_ceilfloor (void)', 'h_%s (void)' % _n)
+    if _n == 'mpf_floor': _v['selftest'] = []
+    UNITS.append(_v)
